@@ -169,6 +169,15 @@ fn inst_oracle(c: &Inst) -> Verdict {
         let r = lib!(e.to_rfc3339());
         ensure!(r == format!("{}+00:00", uv), "to_rfc3339: got {:?}, want {:?}", r, format!("{}+00:00", uv));
     }
+    // an instant inside an inserted leap second has no UTC count of its own, but whatever UTC fields and text the
+    // library gives for it are valid ones: second < 60 (the statement's first clause), and they parse
+    if utc_view.is_none() {
+        let t = lib!(e.to_gregorian_utc());
+        ensure!(t.1 >= 1 && t.1 <= 12 && t.2 >= 1 && t.2 <= 31 && t.3 < 24 && t.4 < 60 && t.5 < 60 && t.6 < 1_000_000_000, "to_gregorian_utc of {} (inside an inserted leap second) has a field out of range: {:?}", want, t);
+        let txt = lib!(e.to_gregorian_str(TimeScale::UTC));
+        let sec: u32 = txt.get(17..19).and_then(|x| x.parse().ok()).unwrap_or(99);
+        ensure!(sec < 60, "to_gregorian_str(UTC) of {} (inside an inserted leap second) is {:?}: second {} is not below 60", want, txt, sec);
+    }
     // Gregorian string in another scale (exact conversions only): rendering of the converted count
     if exact(c.s) {
         let others = [S_TAI, S_TT, S_UTC, S_GPST, S_GST, S_BDT, S_QZSST];
